@@ -942,8 +942,15 @@ class FakedWBEMConnection(WBEMConnection):
             self._mainprovider.validate_namespace(namespace)
 
             if isinstance(objects, list):
-                for obj in objects:
-                    self.add_cimobjects(obj, namespace=namespace)
+                # Restore the CIM repository if adding one of the objects
+                # fails, so that a failed call leaves it unchanged.
+                snapshot = self.cimrepository.snapshot()
+                try:
+                    for obj in objects:
+                        self.add_cimobjects(obj, namespace=namespace)
+                except Exception:
+                    self.cimrepository.restore(snapshot)
+                    raise
 
             else:
                 obj = objects
